@@ -231,13 +231,16 @@ theorem C05_fixed_overflow_defect : fixedEncode 10 300000000 = none := by
 /-- **compress() on a float column stays within the relative tolerance** (exact arithmetic):
 whenever `_get_decimal_places` returns `d`, every non-zero value `x` of the column (i) fits the
 int32 fixed-point representation with factor `10^d` (so `FixedPointEncoding` stores the exact
-rounded integer) and (ii) decodes to a value within `tol·|x|` of `x`.  When it returns `None`
-the column is stored as plain bytes (lossless, `C05_bytes`). -/
+rounded integer) and (ii) decodes to a value within `tol·|x|` of `x`; and `d ≤ 18`, so the factor `10^d` that is
+written into the file fits a 64-bit integer (the msgpack layer cannot write a larger one: a column containing `1e-40` made
+`BinaryCIFFile.write` fail before fix 575ec004).  When it returns `None` the column is stored as plain bytes (lossless,
+`C05_bytes`). -/
 theorem C05_compress_float_tolerance (fuel : Nat) (d0 d : Int) (xs : List Rat) (tol : Rat)
     (h : decimalsFrom fuel d0 xs tol = some d) :
-    ∀ x ∈ xs, ∃ k, fixedEncode (pow10 d) x = some k ∧
+    d ≤ 18 ∧ ∀ x ∈ xs, ∃ k, fixedEncode (pow10 d) x = some k ∧
       absQ (fixedDecode (pow10 d) k - x) < tol * absQ x := by
-  obtain ⟨hmax, hall⟩ := decimalsFrom_sound fuel d0 xs tol d h
+  obtain ⟨h18, hmax, hall⟩ := decimalsFrom_sound fuel d0 xs tol d h
+  refine ⟨h18, ?_⟩
   intro x hx
   have hp := pow10_pos d
   have hle := le_maxAbs xs x hx
